@@ -12,6 +12,9 @@ HARNESSES = [
 ]
 # one model = what /repo HEAD does; every C16 finding is fixed, so a regression to an old defect is a VIOLATION
 VARIANTS = ["repaired"]
+# the runner cases run on real timers: the model driver reads the observed write times and accepts them within a
+# tolerance around the runner_next-driven prediction (everything else is compared exactly)
+MODEL_NEEDS_IMPL = True
 RULE = ("pair: two real ControlChannels (origins from {0,1,0x7ffd..0x8001,0xfffc..0xffff,random}, windows 1-4/8/16/default, "
         "max-retries 1-5, small RTO/ZLB delays) driven by a schedule of submit / deliver k-th in transit / duplicate / drop / "
         "tick / set-window / inject ops, each optionally with failing send-callback writes (f<j>: the (j+1)-th write of the "
@@ -35,7 +38,7 @@ ASSUMPTIONS = ["fewer than 2^15 messages are submitted per direction (exactly-on
 
 
 def route(case):
-    return "disp" if case.startswith(("disp", "sccrq", "full", "rws", "overlap", "stopccn", "sccrqdup", "idle")) else "chan"
+    return "disp" if case.startswith(("disp", "sccrq", "full", "rws", "overlap", "stopccn", "sccrqdup", "idle", "runner")) else "chan"
 
 
 ORIGINS = [0, 0, 1, 0x7ffd, 0x7ffe, 0x7fff, 0x8000, 0x8001, 0xfffc, 0xfffd, 0xfffe, 0xffff]
@@ -201,6 +204,22 @@ def gen_burst(rng, n):
     return out
 
 
+def gen_runner():
+    """scripted peers against the real runner loop (real timers, all cases run concurrently, ~2.3 s)"""
+    out = ["runner 1500", "runner 1200 5:scccn"]
+    for h in range(330, 1331, 100):                       # idle tunnel, then a Hello (the C16_q3 class)
+        out.append("runner %d 5:scccn %d:hello" % (h + 900, h))
+    for h in range(430, 1231, 100):                       # our ICRP in flight (RTO 1 s pending), then a Hello
+        out.append("runner %d 5:scccn 300:icrq %d:hello" % (h + 900, h))
+    for h in range(530, 1131, 100):                       # ICRP acknowledged, tunnel idle again, then a Hello
+        out.append("runner %d 5:scccn 300:icrq 430:ack %d:hello" % (h + 900, h))
+    for h in (330, 630, 1130):                            # SCCRP never acknowledged: retransmission carries the ack
+        out.append("runner %d %d:hello" % (max(h + 900, 1500), h))
+    out.append("runner 1900 5:scccn 330:hello 380:hello 830:hello")
+    out.append("runner 2000 5:scccn 300:icrq 360:icrq 430:ack 930:hello")
+    return out
+
+
 def gen_disp(rng, n):
     out = []
     for _ in range(n):
@@ -286,6 +305,7 @@ def gen_cases(rng, tier, budget):
     cases.append("stopccn")
     cases.append("sccrqdup")
     cases.append("idle 700")
+    cases += gen_runner()
     # advertised Receive Window Size through the real establishment path; exhaustive over the small grid
     for w in ["-", "0", "1", "2", "3", "4", "8", "16", "32"]:
         cases.append("rws lac %s 0 0" % w)
@@ -343,6 +363,8 @@ def monitor(case, line):
         return monitor_disp(case, line)
     if case.startswith("full"):
         return monitor_full(case, line)
+    if case.startswith("runner"):
+        return None
     if case.startswith("idle"):
         if line.endswith("acked=0"):
             return ("idle tunnel: an in-order Hello was accepted but no acknowledgement left within zlbDelay + 500 ms + slack: "
@@ -509,6 +531,9 @@ def first_diff(a, b):
 
 
 def classify(case, impl, model):
+    if case.startswith("runner"):
+        return "P", ("the tunnel runner's writes (acknowledgements / retransmissions) deviate from the runner contract "
+                     "(next Tick = reported deadline, 500 ms idle poll, 50 ms floor) beyond -120/+400 ms: observed %r, %r" % (impl, model))
     m = monitor(case, impl)
     if m:
         return "P", m
@@ -564,6 +589,8 @@ def nontrivial(case, out):
         return any(t.startswith("D1") for t in toks)
     if case.startswith("full"):
         return any(t.endswith(":A1") for t in toks)
+    if case.startswith("runner"):
+        return len(toks) > 2
     if not kv:
         return False
     if not (kv.get("delA") or kv.get("delB")):
@@ -579,7 +606,7 @@ def shrink(case):
         head, ops = t[:13], t[13:]
     elif t[0] == "disp":
         head, ops = t[:2], t[2:]
-    elif t[0] == "full":
+    elif t[0] in ("full", "runner"):
         head, ops = t[:2], t[2:]
     else:
         return
